@@ -22,12 +22,13 @@ type Lex struct {
 	EmptyPairs bool // <x></x> instead of <x/>
 	SingleQuot bool // attribute values in single quotes
 	Prolog     bool // XML declaration
+	SplitText  bool // one text as several adjacent runs (escaped text next to CDATA sections)
 }
 
 // FullLex returns a Lex with every variation class on.
 func FullLex(r *rand.Rand) *Lex {
 	return &Lex{R: r, Whitespace: true, Comments: true, CDATA: true, CharRefs: true, DefaultNS: true,
-		Redeclare: true, EmptyPairs: true, SingleQuot: true, Prolog: true,
+		Redeclare: true, EmptyPairs: true, SingleQuot: true, Prolog: true, SplitText: true,
 		Prefixes: map[string][]string{
 			"DAV:":                           {"D", "d", "dav", "A", "x"},
 			"urn:ietf:params:xml:ns:caldav":  {"C", "cal", "c", "x", "B"},
@@ -321,6 +322,13 @@ func (lx *Lex) escText(s string) string {
 	if s == "" {
 		return ""
 	}
+	if rs := []rune(s); lx.SplitText && lx.R != nil && len(rs) >= 2 && lx.chance(4) {
+		// the same text as two adjacent runs, each spelt on its own (a reader
+		// sees several character-data events for one text)
+		cut := 1 + lx.R.Intn(len(rs)-1)
+		a, b := string(rs[:cut]), string(rs[cut:])
+		return lx.escRun(a, lx.R.Intn(2) == 0) + lx.escRun(b, lx.R.Intn(2) == 0)
+	}
 	if lx.CDATA && lx.chance(5) && !strings.Contains(s, "]]>") && !strings.Contains(s, "\r") {
 		return "<![CDATA[" + s + "]]>"
 	}
@@ -337,6 +345,33 @@ func (lx *Lex) escText(s string) string {
 			sb.WriteString("&#13;")
 		case lx.CharRefs && lx.chance(15):
 			fmt.Fprintf(&sb, "&#%d;", r)
+		default:
+			sb.WriteRune(r)
+		}
+	}
+	return sb.String()
+}
+
+// escRun spells one run of text: as a CDATA section when asked for and
+// possible, escaped otherwise.
+func (lx *Lex) escRun(s string, cdata bool) string {
+	if s == "" {
+		return ""
+	}
+	if cdata && !strings.Contains(s, "]]>") && !strings.Contains(s, "\r") && !strings.HasSuffix(s, "]") && !strings.HasSuffix(s, "]]") {
+		return "<![CDATA[" + s + "]]>"
+	}
+	var sb strings.Builder
+	for _, r := range s {
+		switch {
+		case r == '&':
+			sb.WriteString("&amp;")
+		case r == '<':
+			sb.WriteString("&lt;")
+		case r == '>':
+			sb.WriteString("&gt;")
+		case r == '\r':
+			sb.WriteString("&#13;")
 		default:
 			sb.WriteRune(r)
 		}
